@@ -229,13 +229,45 @@ func (rn *run) checkFile(cfg config) {
 	}
 	{
 		d := mk("d3")
-		size := []int{0, 1, 15, 16, 17, 31, 32, 33, 100, 1000}[e.Rand.IntN(10)]
+		size := []int{0, 1, 15, 16, 17, 31, 32, 33, 100, 1000}[rn.fileIdx%10]
 		body := bytes.Repeat(mk("body"), 1+size/20)[:max(size, 0)]
 		if size >= 24 {
 			markers = append(markers, body[:24])
 		}
 		putStream(w.Alloc(), func() pdf.Object { return pdf.Dict{"D": fresh(d)} }, body)
 	}
+	// empty streams (written through OpenStream with no Write at all, with a zero-length Write, and as a stream
+	// object) and empty strings in every placement
+	{
+		d1, d2, d3 := mk("e1"), mk("e2"), mk("e3")
+		putStreamRaw := func(f func() pdf.Object, zeroWrite bool) {
+			ref := w.Alloc()
+			ws, err := w.OpenStream(ref, f().(pdf.Dict))
+			if err != nil {
+				e.Fail("writer-error", err.Error(), info)
+				return
+			}
+			if zeroWrite {
+				ws.Write(nil)
+			}
+			if err := ws.Close(); err != nil {
+				e.Fail("writer-error", err.Error(), info)
+			}
+			objs = append(objs, &written{ref: ref, obj: f, body: []byte{}, stream: true})
+		}
+		putStreamRaw(func() pdf.Object { return pdf.Dict{"D": fresh(d1), "E": pdf.String(""), "EA": pdf.Array{pdf.String(""), pdf.String("")}} }, false)
+		putStreamRaw(func() pdf.Object { return pdf.Dict{"D": fresh(d2)} }, true)
+		{
+			ref := w.Alloc()
+			f := func() pdf.Object { return pdf.Dict{"D": fresh(d3), "E": pdf.String("")} }
+			if err := w.Put(ref, pdf.NewStream(f().(pdf.Dict), nil)); err != nil {
+				e.Fail("writer-error", err.Error(), info)
+			}
+			objs = append(objs, &written{ref: ref, obj: f, body: []byte{}, stream: true})
+		}
+		put(w.Alloc(), func() pdf.Object { return pdf.Array{pdf.String(""), pdf.Dict{"E": pdf.String("")}, pdf.Array{pdf.String("")}} })
+	}
+
 	// long containers: arrays of 1 .. 1000 elements (flat, nested, dictionaries inside long arrays, long arrays
 	// inside dictionaries inside arrays), dictionaries and strings whose formatted size crosses 64/512/1024/4096
 	// bytes - in direct objects, stream dictionaries and object streams
@@ -366,7 +398,7 @@ func (rn *run) checkFile(cfg config) {
 	crefs := []pdf.Reference{w.Alloc(), w.Alloc(), w.Alloc()}
 	cobjs := []func() pdf.Object{
 		func() pdf.Object { return pdf.Dict{"CS": fresh(cm1), "Same": fresh(same)} },
-		func() pdf.Object { return pdf.Array{fresh(cm2)} },
+		func() pdf.Object { return pdf.Array{fresh(cm2), pdf.String("")} },
 		longMember,
 	}
 	if err := w.WriteCompressed(crefs, cobjs[0](), cobjs[1](), cobjs[2]()); err != nil {
